@@ -97,9 +97,15 @@ def gen_population(rng, schema_doc, max_rows=30, p_null=0.15, p_dangling=0.15, p
     n_total = 0
     counters = {}
 
+    small_domain = rng.random() < 0.35
+
     def fresh(ty, kind, name):
         ty = ty.upper()
         k = counters[(kind, name)] = counters.get((kind, name), 0) + 1
+        if small_domain and ty in ('INTEGER', 'STRING', 'UNIQUE_ID') and not resolvable:
+            # components of compound keys drawn from one small domain: tuples that are permutations of each other
+            d = rng.randint(1, 3)
+            return {'INTEGER': d, 'STRING': 'v%d' % d, 'UNIQUE_ID': d}[ty]
         if ty == 'UNIQUE_ID':
             return rng.choice([k, k + 100, (k << 64) + 7, 2 ** 127 + k])
         if ty == 'INTEGER':
